@@ -5,6 +5,9 @@ use std::io::Write;
 use std::process::{Command, Stdio};
 use std::sync::{Arc, Mutex};
 
+/// prefix of the error text of a child that died by a signal
+pub const CRASH: &str = "CHILD-CRASHED";
+
 pub fn self_exe() -> std::path::PathBuf {
     std::env::current_exe().expect("current_exe")
 }
@@ -37,12 +40,16 @@ pub fn call_env(args: &[&str], input: &Value, envs: &[(&str, String)]) -> Result
     let last = stdout.lines().rev().find(|l| l.starts_with('{'));
     match last {
         Some(l) => serde_json::from_str(l).map_err(|e| format!("bad child json: {e}: {l:.200}")),
-        None => Err(format!(
-            "child {:?} produced no JSON (status {:?}); stderr: {:.2000}",
-            args,
-            out.status.code(),
-            String::from_utf8_lossy(&out.stderr)
-        )),
+        None => {
+            use std::os::unix::process::ExitStatusExt;
+            let stderr = String::from_utf8_lossy(&out.stderr);
+            let tail: String = stderr.lines().rev().take(6).collect::<Vec<_>>().into_iter().rev().collect::<Vec<_>>().join(" | ");
+            match out.status.signal() {
+                // the child was killed by a signal (stack overflow -> SIGABRT/SIGSEGV, abort ...)
+                Some(sig) => Err(format!("{CRASH} signal {sig}; stderr tail: {tail:.1500}")),
+                None => Err(format!("child {:?} produced no JSON (status {:?}); stderr: {:.2000}", args, out.status.code(), stderr)),
+            }
+        }
     }
 }
 
